@@ -77,6 +77,9 @@ class Base:
         self.a = a
         rec(self, a=a)
 
+    def describe(self):
+        return type(self).__name__
+
 
 class SubA(Base):
     def __init__(self, a: int = 2, b: str = "x"):
